@@ -2868,8 +2868,121 @@ def c04_create_table_group(mir, ctx):
     return [g]
 
 
+def c05_builder_group(mir, ctx):
+    """Insert::row / Insert::rows / Update::set: every cell value handed to a statement is stored in
+    it only after passing through a function that maps the empty string to Null and leaves every
+    other value alone -- so validation and key comparison see the value that will be stored
+    (ValueRef::create stores "" as the null reference: C01's law)."""
+    from .mir_protocol import _confirm_keys
+    vsrc = open(os.path.join(REPO, "src/internal/value.rs")).read()
+    vv = enum_variants(vsrc, "Value")
+    for need in ("Null", "Int", "Str"):
+        if need not in vv:
+            raise EncodingError("Value has no variant %s" % need)
+    g = Group("builder_normalisation", ["query::Insert::row", "query::Insert::rows", "query::Update::set", "the normalising function they apply"], confirm=_confirm_keys,
+              note="Insert::row maps every value of the row through a crate function F before storing it, Insert::rows goes through Insert::row for "
+                   "every row, Update::set stores F(value); and F(Null) = Null, F(Int(n)) = Int(n), F(Str(s)) = Null when s is empty and Str(s) otherwise")
+    applied = set()
+
+    def find1(rx, what):
+        c = [f for n, fs in mir.fns.items() for f in fs if re.search(rx, n)]
+        c = [f for f in c if what(f)]
+        if len(c) != 1:
+            raise EncodingError("builder %s not found uniquely (%d)" % (rx, len(c)))
+        return c[0]
+
+    f_row = find1(r"query::<impl at [^>]*>::row$", lambda f: f.args and "Insert" in f.args[0][1])
+    f_rows = find1(r"query::<impl at [^>]*>::rows$", lambda f: f.args and "Insert" in f.args[0][1])
+    f_set = find1(r"query::<impl at [^>]*>::set$", lambda f: f.args and "Update" in f.args[0][1])
+    lens = {}
+    it_models, what_of, coll = iter_models(ctx, lens, consistent=True)
+
+    def m_map(ex, callee, args, pc, events):
+        mm = re.search(r"map::<Value, fn\(Value\) -> Value \{([\w:]+)\}>", callee)
+        fname = mm.group(1) if mm else "?closure"
+        applied.add(fname)
+        return [(pc, events, OpaqueV("map[%s](%s)" % (fname, what_of(ex, args[0]))))]
+
+    def m_collect(ex, callee, args, pc, events):
+        return [(pc, events, OpaqueV("vec(%s)" % what_of(ex, args[0])))]
+
+    def m_push(ex, callee, args, pc, events):
+        v = ex.load(args[1])
+        w = getattr(v, "what", None)
+        if w is None and isinstance(v, TupleV):
+            w = "(" + ",".join(getattr(ex.load(f), "what", repr(ex.load(f))) for f in v.fields) + ")"
+        return [(pc, events + [("store", coll(what_of(ex, args[0])), w)], TupleV([]))]
+
+    def m_direct(ex, callee, args, pc, events):
+        applied.add(callee.split("::")[-1])
+        return [(pc, events, OpaqueV("F[%s](%s)" % (callee.split("::")[-1], what_of(ex, args[0]))))]
+
+    def m_row_call(ex, callee, args, pc, events):
+        return [(pc, events + [("row-call", what_of(ex, args[1]))], OpaqueV("insert"))]
+
+    cand_f = [n for n, fs in mir.fns.items() for f in fs if len(f.args) == 1 and f.args[0][1].strip() == "Value" and (f.ret or "").strip() == "Value"]
+    direct_rx = r"^(%s)$" % "|".join(re.escape(n.split("::")[-1]) for n in cand_f) if cand_f else r"^$never"
+    base = [(r"as Iterator>::map::<", m_map), (r"as Iterator>::collect::<Vec<Value>>$", m_collect), (r"Vec::<.*>::push$", m_push),
+            (r"as Into<String>>::into$", lambda ex, callee, args, pc, events: [(pc, events, OpaqueV("name"))])]
+    # Insert::row
+    ex = M.Exec(mir, ctx, models=base + it_models, havoc_unknown=True)
+    ex.new_obj("ins", [OpaqueV("ins.table_name"), OpaqueV("ins.new_rows")])
+    outs = [o for o in ex.run(f_row, [M.ObjV("ins"), OpaqueV("values")]) if o.kind == "return"]
+    for k, o in enumerate(outs):
+        st = [e for e in o.events if e[0] == "store"]
+        ok = len(st) == 1 and re.fullmatch(r"vec\(map\[[\w:]+\]\(it#\d+\|values\)\)", st[0][2] or "") is not None
+        g.queries.append(Query("row_%d" % k, ["false"] if ok else o.pc, "unsat", note="Insert::row stores %r, not the given values mapped through the normalising function" % (st,)))
+    # Insert::rows: every element goes through Insert::row
+    ex = M.Exec(mir, ctx, models=[(r"Insert::row$", m_row_call)] + base + it_models, havoc_unknown=True)
+    ex.max_revisit = 3
+    ex.new_obj("ins", [OpaqueV("ins.table_name"), OpaqueV("ins.new_rows")])
+    outs = [o for o in ex.run(f_rows, [M.ObjV("ins"), OpaqueV("rows")]) if o.kind == "return"]
+    for k, o in enumerate(outs):
+        elems = [e[1] for e in o.events if e[0] == "elem" and re.fullmatch(r"rows\[\d+\]", e[1])]
+        calls = [e[1] for e in o.events if e[0] == "row-call"]
+        stores = [e for e in o.events if e[0] == "store"]
+        ok = calls == elems and not stores and any(e[0] == "iter-done" for e in o.events)
+        g.queries.append(Query("rows_%d" % k, ["false"] if ok else o.pc, "unsat", note="Insert::rows does not hand exactly its rows, in order, to Insert::row (rows %r, calls %r, direct stores %r)" % (elems, calls, stores)))
+    # Update::set
+    ex = M.Exec(mir, ctx, models=[(direct_rx, m_direct)] + base + it_models, havoc_unknown=True)
+    ex.new_obj("upd", [OpaqueV("upd.f%d" % i) for i in range(3)])
+    outs = [o for o in ex.run(f_set, [M.ObjV("upd"), OpaqueV("column_name"), OpaqueV("value")]) if o.kind == "return"]
+    for k, o in enumerate(outs):
+        st = [e for e in o.events if e[0] == "store"]
+        ok = len(st) == 1 and re.search(r"F\[[\w:]+\]\(value\)", st[0][2] or "") is not None
+        g.queries.append(Query("set_%d" % k, ["false"] if ok else o.pc, "unsat", note="Update::set stores %r, not (name, normalised value)" % (st,)))
+    # the function(s) applied
+    if not applied:
+        g.queries.append(Query("no_function", [], "unsat", note="no normalising function is applied by the builders"))
+    for fname in sorted(applied):
+        fs = [f for n, fl in mir.fns.items() for f in fl if n.split("::")[-1] == fname.split("::")[-1] and len(f.args) == 1]
+        if len(fs) != 1:
+            raise EncodingError("normalising function %s not found uniquely" % fname)
+        for vname in ("Null", "Int", "Str"):
+            empty = ctx.fresh_bool("string_is_empty")
+            mods = [(r"String::is_empty$|str::is_empty$|<impl str>::is_empty$", lambda ex, callee, args, pc, events, t=empty.term: [(pc, events + [("is_empty",)], BoolV(t))])]
+            ex = M.Exec(mir, ctx, models=mods, havoc_unknown=True)
+            inp = EnumV(variant=vv.index(vname), fields=[OpaqueV("payload")])
+            for k, o in enumerate([o for o in ex.run(fs[0], [inp]) if o.kind == "return"]):
+                r = o.value
+                rv = vv[r.variant] if isinstance(r, EnumV) and isinstance(r.variant, int) and r.variant < len(vv) else (r.variant if isinstance(r, EnumV) else "?")
+                same = isinstance(r, EnumV) and rv == vname and (not r.fields or getattr(r.fields[0], "what", "") == "payload")
+                if vname != "Str":
+                    g.queries.append(Query("f_%s_%d" % (vname, k), ["false"] if same else o.pc, "unsat", note="%s(%s) returns %r" % (fname, vname, r)))
+                else:
+                    asked = any(e[0] == "is_empty" for e in o.events)
+                    if rv == "Null":
+                        g.queries.append(Query("f_str_null_%d" % k, o.pc + [s_not(empty.term)] if asked else o.pc, "unsat", note="%s turns a non-empty string into Null" % fname))
+                    elif same:
+                        g.queries.append(Query("f_str_kept_%d" % k, o.pc + [empty.term] if asked else o.pc, "unsat", note="%s keeps the empty string as a string (it is then stored as the null reference without having been validated or compared as Null)" % fname))
+                    else:
+                        g.queries.append(Query("f_str_other_%d" % k, o.pc, "unsat", note="%s(Str) returns %r" % (fname, r)))
+    g.witness.append(Query("w", [], "sat"))
+    return [g]
+
+
 def c05_all(mir, ctx):
-    return c05_update_group(mir, ctx) + c05_insert_group(mir, ctx)
+    return c05_update_group(mir, ctx) + c05_insert_group(mir, ctx) + c05_builder_group(mir, ctx)
 
 
 def c12_column_lookup_group(mir, ctx):
